@@ -104,6 +104,7 @@ def stepJ (j : Json) : R Op := do
   | "child_owner" => return .childOwner (← natF j "owner")
   | "provider" => return .provider (← natF j "owner") (← optF asNat j "initial") (← natF j "fallback")
   | "use_ctx" => return .useCtx (← natF j "owner")
+  | "tick" => return .tick
   | o => .error s!"unknown step op {o}"
 
 def obsJ : Obs → Json
